@@ -274,7 +274,15 @@ fn f_attributes(d: &mut Draw, k: usize) -> Feature {
 /// of a top-level package (pass 1 resolves the label lexically, so the label
 /// then refers to a symbol of another file — or not, depending on the order)
 fn f_unsafe(d: &mut Draw, k: usize) -> Feature {
-    let collide = d.chance(1, 3);
+    f_unsafe_inner(d, k, false)
+}
+
+fn f_clock_label(d: &mut Draw, k: usize) -> Feature {
+    f_unsafe_inner(d, k, true)
+}
+
+fn f_unsafe_inner(d: &mut Draw, k: usize, collide: bool) -> Feature {
+    let _ = &d;
     let la = if collide { format!("lbl{k}") } else { "a".to_string() };
     let decl = format!(
         "module Cdc{k} (\n    i_clk_a: input  '{la} clock,\n    i_dat  : input  '{la} logic,\n    i_clk_b: input  'b clock,\n    o_dat  : output 'b logic,\n) {{\n    unsafe (cdc) {{\n        assign o_dat = i_dat;\n    }}\n}}\n"
@@ -408,7 +416,21 @@ fn f_mixin(d: &mut Draw, k: usize) -> Feature {
     }
 }
 
-const N_FEATURES: u32 = 15;
+/// the same top-level name declared in two files: the second one processed
+/// reports `duplicated_identifier` (not cacheable); restoring the other one
+/// behind it is a symbol conflict, so `restore` errs and the caller falls back
+fn f_duplicate(d: &mut Draw, k: usize) -> Feature {
+    let w = d.usize_in(1, 9);
+    let decl = format!("/// first Dup{k}\nmodule Dup{k} (\n    a: input logic<{w}>,\n) {{\n    let _x: logic<{w}> = a;\n}}\npackage DupSide{k} {{\n    const K: u32 = {w};\n}}\n");
+    let use_ = format!("module Dup{k} {{\n    let _y: logic<DupSide{k}::K> = 0;\n}}\n");
+    Feature {
+        name: "duplicate top-level name in two files (restore conflict)",
+        decl: vec![decl],
+        uses: vec![use_],
+    }
+}
+
+const N_FEATURES: u32 = 17;
 
 fn feature(d: &mut Draw, which: u32, k: usize) -> Feature {
     match which {
@@ -427,7 +449,9 @@ fn feature(d: &mut Draw, which: u32, k: usize) -> Feature {
         12 => f_wavedrom(d, k),
         13 => f_misc(d, k),
         14 => f_generic_function(d, k),
-        _ => f_mixin(d, k),
+        15 => f_mixin(d, k),
+        16 => f_clock_label(d, k),
+        _ => f_duplicate(d, k),
     }
 }
 
@@ -457,21 +481,28 @@ pub fn file_set(d: &mut Draw) -> FileSet {
     let mut users: Vec<Vec<String>> = vec![vec![]; nfiles];
     let mut classes = Vec::new();
     for k in 0..nfeat {
-        let which = d.below(N_FEATURES + 1);
+        let which = if d.chance(1, 24) { N_FEATURES } else { d.below(N_FEATURES) };
         let f = feature(d, which, k);
         classes.push(format!("gen:{}", f.name));
-        // declarations together in one file (mostly), users elsewhere (mostly)
-        let home = d.below_usize(nfiles);
+        // The analyzer panics (type_dag.rs insert_file_edge, WouldCycle) when
+        // two *files* depend on each other, so dependencies only point to a
+        // file with a lower or equal index: the items of a feature are listed
+        // in dependency order and get a non-decreasing sequence of files.
+        let mut at = d.below_usize(nfiles);
         for item in f.decl {
-            let at = if d.chance(1, 5) { d.below_usize(nfiles) } else { home };
+            if d.chance(1, 5) {
+                at = at + d.below_usize(nfiles - at);
+            }
             decls[at].push(item);
         }
+        // users mostly in a later file
+        if at + 1 < nfiles && d.chance(5, 6) {
+            at = at + 1 + d.below_usize(nfiles - at - 1);
+        }
         for item in f.uses {
-            let at = if d.chance(1, 6) {
-                home
-            } else {
-                (home + 1 + d.below_usize(nfiles - 1)) % nfiles
-            };
+            if d.chance(1, 4) {
+                at = at + d.below_usize(nfiles - at);
+            }
             users[at].push(item);
         }
     }
@@ -499,20 +530,101 @@ pub fn file_set(d: &mut Draw) -> FileSet {
 }
 
 /// Cuts a corpus file's top-level items onto 2–4 part files (file-level
-/// imports are copied into every part).
+/// imports are copied into every part).  The parts must not depend on each
+/// other cyclically (see `file_set`): the items are ordered so that an item
+/// comes after everything it mentions (items that mention each other stay
+/// together), then the sequence is cut into contiguous parts.
 pub fn split_corpus_file(d: &mut Draw, items: &[super::corpus::Item]) -> Vec<String> {
-    let nparts = d.usize_in(2, 4).min(items.iter().filter(|i| !i.is_import).count().max(2));
-    let mut parts: Vec<String> = vec![String::new(); nparts];
-    for it in items {
-        if it.is_import {
-            for p in parts.iter_mut() {
-                p.push_str(&it.text);
-                p.push('\n');
+    use super::corpus::{mentioned, top_level_decls};
+    let body: Vec<&super::corpus::Item> = items.iter().filter(|i| !i.is_import).collect();
+    let n = body.len();
+    let decls: Vec<Vec<String>> = body.iter().map(|i| top_level_decls(&i.text)).collect();
+    let ments: Vec<std::collections::BTreeSet<String>> = body.iter().map(|i| mentioned(&i.text)).collect();
+    // reach[i][j]: item i (transitively) mentions a declaration of item j
+    let mut reach = vec![vec![false; n]; n];
+    for i in 0..n {
+        for j in 0..n {
+            if i != j && decls[j].iter().any(|x| ments[i].contains(x)) {
+                reach[i][j] = true;
             }
-        } else {
-            let at = d.below_usize(nparts);
-            parts[at].push_str(&it.text);
-            parts[at].push('\n');
+        }
+    }
+    for k in 0..n {
+        for i in 0..n {
+            if reach[i][k] {
+                for j in 0..n {
+                    if reach[k][j] {
+                        reach[i][j] = true;
+                    }
+                }
+            }
+        }
+    }
+    // groups of mutually dependent items
+    let mut group = vec![usize::MAX; n];
+    let mut groups: Vec<Vec<usize>> = Vec::new();
+    for i in 0..n {
+        if group[i] != usize::MAX {
+            continue;
+        }
+        let g = groups.len();
+        let mut members = vec![i];
+        group[i] = g;
+        for j in i + 1..n {
+            if group[j] == usize::MAX && reach[i][j] && reach[j][i] {
+                group[j] = g;
+                members.push(j);
+            }
+        }
+        groups.push(members);
+    }
+    // dependency order of the groups, ties broken by a drawn priority
+    let ng = groups.len();
+    let prio: Vec<u32> = (0..ng).map(|_| d.below(1000)).collect();
+    let mut done = vec![false; ng];
+    let mut order: Vec<usize> = Vec::new();
+    while order.len() < ng {
+        let mut best: Option<usize> = None;
+        for g in 0..ng {
+            if done[g] {
+                continue;
+            }
+            let ready = (0..ng).all(|h| h == g || done[h] || !reach[groups[g][0]][groups[h][0]]);
+            if ready && best.is_none_or(|b| prio[g] < prio[b]) {
+                best = Some(g);
+            }
+        }
+        let g = best.unwrap_or_else(|| (0..ng).find(|&g| !done[g]).unwrap());
+        done[g] = true;
+        order.push(g);
+    }
+    let nparts = d.usize_in(2, 4).min(ng.max(1));
+    // cut points
+    let mut part_of_pos = vec![0usize; ng];
+    if nparts > 1 {
+        let mut cuts: Vec<usize> = Vec::new();
+        while cuts.len() < nparts - 1 {
+            let c = 1 + d.below_usize(ng - 1);
+            if !cuts.contains(&c) {
+                cuts.push(c);
+            }
+        }
+        cuts.sort();
+        for (pos, p) in part_of_pos.iter_mut().enumerate() {
+            *p = cuts.iter().filter(|&&c| c <= pos).count();
+        }
+    }
+    let mut parts: Vec<String> = vec![String::new(); nparts.max(1)];
+    for it in items.iter().filter(|i| i.is_import) {
+        for p in parts.iter_mut() {
+            p.push_str(&it.text);
+            p.push('\n');
+        }
+    }
+    for (pos, &g) in order.iter().enumerate() {
+        for &i in &groups[g] {
+            parts[part_of_pos[pos]].push_str(&body[i].text);
+            parts[part_of_pos[pos]].push('\n');
         }
     }
     for (j, p) in parts.iter_mut().enumerate() {
